@@ -5,7 +5,7 @@ from rules import common, c09
 
 CLAIMED = True
 TECHNIQUE = "static analysis over type-checked MIR: provenance of every update of the width counters (char_starts results / unit steps inside a lead-byte-filtered iteration, never byte lengths), normal form of the UTF-8 lead-byte predicate, writer-type composition table of Chunk::encode per (min,max,align) arm, must-follow of finish() after the chunk's encode, pad-before/after-content ordering in the two finish functions"
-LEVEL_TEXT = """Static decision of structural clauses: (A6) in the specification parser the fill character is stored without any test on its own value (so `<`, `>` and the syntax characters are legal fills), exactly when the following character is `<` or `>`, and `<`/`>` select left/right alignment; and of four writer clauses (the width law itself — cut position arithmetic, partial-write accounting, text arriving split inside a code point — is NOT claimed): (A1) every update of MaxWidthWriter.remaining, LeftAlignWriter.to_fill and RightAlignWriter.to_fill subtracts either a char_starts(..) result or 1 inside an iteration filtered by is_char_boundary — never a byte length; the cut index comes from the lead-byte-filtered enumerate, so the cut falls on a lead byte; (A2) is_char_boundary(b) is a recognised form of 'not a UTF-8 continuation byte'; char_starts counts exactly the bytes satisfying it; (A5) MaxWidthWriter::write swallows a buffer (returns Ok(buf.len()) without forwarding) only when the cut index computed by the lead-byte scan is 0; (A3) in Chunk::encode the writer per (min,max,align) arm is MaxWidthWriter alone, Left/RightAlignWriter alone, or Left/RightAlignWriter<MaxWidthWriter> (alignment outside, limit inside, so padding also passes the limit), with min feeding to_fill, max feeding remaining and params.fill feeding fill; (A4) on both alignment arms finish() follows the chunk's encode on every Ok path; RightAlignWriter::finish writes the fill before replaying the buffer, LeftAlignWriter::finish writes it after the content (the content has already been forwarded)."""
+LEVEL_TEXT = """Static decision of structural clauses: (A6) in the specification parser the fill character is stored without any test on its own value (so `<`, `>` and the syntax characters are legal fills), exactly when the following character is `<` or `>`, and `<`/`>` select left/right alignment; and of four writer clauses (the width law itself — cut position arithmetic, partial-write accounting, text arriving split inside a code point — is NOT claimed): (A1) every update of MaxWidthWriter.remaining, LeftAlignWriter.to_fill and RightAlignWriter.to_fill subtracts either a char_starts(..) result or 1 inside an iteration filtered by is_char_boundary — never a byte length; the cut index comes from the lead-byte-filtered enumerate, so the cut falls on a lead byte; (A2) is_char_boundary(b) is a recognised form of 'not a UTF-8 continuation byte'; char_starts counts exactly the bytes satisfying it; (A5) MaxWidthWriter::write swallows a buffer (returns Ok(buf.len()) without forwarding) only when the cut index computed by the lead-byte scan is 0; (A3) in Chunk::encode the writer per (min,max,align) arm is MaxWidthWriter alone, Left/RightAlignWriter alone, or Left/RightAlignWriter<MaxWidthWriter> (alignment outside, limit inside, so padding also passes the limit), with min feeding to_fill, max feeding remaining and params.fill feeding fill; (A4) on both alignment arms finish() follows the chunk's encode on every Ok path; RightAlignWriter::finish writes the fill before replaying the buffer, LeftAlignWriter::finish writes it after the content (the content has already been forwarded). (A6, cont.) the look-ahead deciding whether a character is a fill reads the character iterator, never a byte offset of the pattern; (A4, cont.) every non-error return of finish() has passed the head of the padding loop."""
 LEVEL_NOTE = "Trusted: rustc MIR/callee resolution; io::Write contract of the inner writer; UTF-8 encoding facts (continuation bytes are 0x80..=0xBF)."
 EXPLANATION = """Decided: A1 character counting, A2 boundary predicate, A3 truncate-inside/pad-outside composition, A4 padding happens and on the right side. Undecided: the exact cut position arithmetic, accounting under partial writes, text split inside a code point across write calls."""
 DECIDED = ["A1", "A2", "A3", "A4", "A5", "A6 fill/alignment grammar of the format specification", "A7 charged characters are the consumed ones", "A8/A9 nested groups keep their own layer and parameters (C09.T12/T13 re-evaluated)"]
@@ -78,6 +78,14 @@ def rule_spec_grammar(ctx, p, cfg, rid="A6"):
             others = [(c[1], sorted(int(x) for x in c[2])) for c in chars if c[1] != sv]
             r.require(len(others) == 1 and others[0][1] == [60, 62], "fill-iff-followed-by-alignment", fn=f,
                       detail="the store is control-dependent on the next character being '<' or '>': %s" % [(show(e, 4), vs) for e, vs in others])
+            # "the character after it": read from the character iterator, not found by stepping one byte in the text
+            for e_, vs_ in others:
+                names_ = [x[1].rsplit("::", 1)[-1] for x in walk(e_) if x[0] == "call"]
+                bytewise = [n for n in names_ if n in ("as_bytes", "bytes", "get", "get_unchecked", "index", "as_ptr", "byte_at", "is_char_boundary")] + \
+                    [1 for x in walk(e_) if x[0] == "index"]
+                r.require(not bytewise and any(n in ("nth", "next", "peek", "chars", "char_indices") for n in names_), "lookahead-is-a-character", fn=f,
+                          detail="the character after the fill comes from the character iterator: %s" % show(e_, 5),
+                          fail_detail="the look-ahead that decides whether a character is a fill reads %s: one byte past the fill's first byte is not the next character when the fill is not ASCII" % show(e_, 6))
             r.require(any(x[0] == "call" and x[1].rsplit("::", 1)[-1] in ("peek", "next") for x in walk(sv)) and not any(x[0] == "const" and x[1] == "char" for x in walk(sv)),
                       "fill-is-the-looked-at-character", fn=f, detail="stored fill: %s" % show(sv, 4))
         want = {"Left": "<", "Right": ">"}
@@ -141,8 +149,40 @@ def rule_boundary_predicate(ctx, p, cfg, rid="A2"):
             okf = okf and deep_strip(flt[0][2][0])[0] == "call" and deep_strip(flt[0][2][0])[1].endswith("::iter") and deep_strip(deep_strip(flt[0][2][0])[2][0]) == ("param", 1)
         r.require(okc and okf, "counter-counts-lead-bytes", fn=cnt, detail="char_starts = buf.iter().filter(|b| is_char_boundary(b)).count(): %s" % show(ce, 5))
 
+INTEGER_FN = "encode::pattern::parser::Parser::<'a>::integer"
+
+
+def rule_width_presence(ctx, p, cfg, rid="A10"):
+    """A width is absent exactly when no digit was written: `0` is a width (a maximum of 0 cuts everything), and only the
+    absence of digits is "no width".  In Parser::integer, followed with its flags: once a digit has been consumed no path
+    reaches the Ok(None) return, and without consuming one no path reaches any other return."""
+    with ctx.rule(rid, "a width is absent only when no digit was written", cfg) as r:
+        f = p.fn(INTEGER_FN)
+        steps = [c for c in f.calls() if (c.callee or "").rsplit("::", 1)[-1] == "next" and f.in_loop(c.block)]
+        if not steps:
+            raise ShapeUnrecognised("Parser::integer: no digit-consuming next() inside a loop")
+        rets = q.ret_assignments(f)
+        none_rets, other_rets = set(), set()
+        for b, e in rets:
+            e_ = deep_strip(e)
+            pay = deep_strip(dict(e_[3]).get("0")) if e_[0] == "agg" and e_[2] == "Ok" else None
+            if pay is not None and pay[0] == "agg" and pay[2] == "None":
+                none_rets.add(b)
+            else:
+                other_rets.add(b)
+        r.require(bool(none_rets) and bool(other_rets), "both-answers", fn=f, detail="returns of integer(): Ok(None) at bb%s, a width or an error at bb%s" % (sorted(none_rets), sorted(other_rets)))
+        for i, c in enumerate(steps):
+            hit = q.const_skipping_paths(f, c.block, set(), none_rets)
+            r.require(not hit, "digits-read-never-no-width#%d" % i, fn=f, site=c.at, detail="after a digit was consumed Ok(None) is not reached",
+                      fail_detail="after consuming a digit integer() can still answer Ok(None) (bb%s): some written width - e.g. `0` - is read as no width at all, so `{m:.0}` is not cut" % sorted(hit))
+        hit = q.const_skipping_paths(f, 0, {c.block for c in steps}, other_rets)
+        r.require(not hit, "no-digits-no-width", fn=f, detail="without consuming a digit only Ok(None) is reached",
+                  fail_detail="integer() can answer with a width or an error (bb%s) without having read a digit" % sorted(hit))
+
+
 def run_cfg(ctx, p, cfg):
     rule_spec_grammar(ctx, p, cfg, "A6")
+    rule_width_presence(ctx, p, cfg, "A10")
     rule_boundary_predicate(ctx, p, cfg, "A2")
 
     with ctx.rule("A1", "character counting", cfg) as r:
@@ -487,7 +527,8 @@ def run_cfg_rest(ctx, p, cfg):
                 r.require(okn, "%s:pads-to_fill-times" % adt.rsplit("::", 1)[-1], fn=g, detail="the padding loop runs self.to_fill times (trip count %s)" % (show(te, 4) if te else None))
                 # .. on every path: no non-error return of finish() that has not been through the padding loop (text that is
                 # empty still owes its minimum width)
-                steps_ = {n_.block for n_ in g.calls("core::iter::traits::iterator::Iterator::next") if g.in_loop(n_.block) and g.can_reach(n_.block, wf[0].block) and g.can_reach(wf[0].block, n_.block)}
+                # (the head of the loop the write sits in: its test is what decides, per column, whether another fill is owed)
+                steps_ = {h_ for a_, h_ in g.back_edges() if g.dominates(h_, wf[0].block) and g.can_reach(wf[0].block, a_)}
                 rets_ = {b_ for b_, e_ in q.ret_assignments(g) if q.classify_ret(e_) != "err" and not q.is_from_residual(e_)}
                 sk_ = q.skipping_paths(g, 0, steps_, rets_) if steps_ else rets_
                 r.require(not sk_, "%s:pads-on-every-path" % adt.rsplit("::", 1)[-1], fn=g, detail="every non-error return of finish() has passed the padding loop",
